@@ -1584,9 +1584,12 @@ func (c *Compiler) compileLiteralValue(lit ast.Literal) error {
 // The async block body is compiled inline and wrapped with OpAsync
 func (c *Compiler) compileAsyncExpr(expr *ast.AsyncExpr) error {
 	// Create a temporary compiler to compile the async body
+	// The block reads the enclosing variables, but what it declares is its
+	// own: at run time it executes on a VM of its own, so a name declared in
+	// it does not exist in the route afterwards.
 	bodyCompiler := &Compiler{
 		code:        make([]byte, 0),
-		symbolTable: c.symbolTable, // Share symbol table for variable access
+		symbolTable: c.symbolTable.EnterScope(BlockScope),
 		constants:   c.constants,
 	}
 
